@@ -154,7 +154,13 @@ public:
       _running.store(false);
       return StartResult::err(TransportErrorInfo{TransportError::Config, "epoll_create1: " + lastErr()});
     }
-    _eventFd = ::eventfd(0, EFD_NONBLOCK | EFD_CLOEXEC);
+    {
+      // enqueue() reads _eventFd under _qmx from any thread - also while a
+      // stopped transport is being started again - so publish it under the lock.
+      const int efd = ::eventfd(0, EFD_NONBLOCK | EFD_CLOEXEC);
+      std::lock_guard<std::mutex> g(_qmx);
+      _eventFd = efd;
+    }
     if (_eventFd < 0)
     {
       error(TransportError::Config, "eventfd: " + lastErr());
